@@ -1085,16 +1085,16 @@ theorem strValue_strip (s : List Char) (h : ∀ c ∈ s, c ≠ '\r') : strValue 
 /-! ## nothing but white space and decoration is added or removed -/
 
 /-- `b` is `a` with blocks from `ds` inserted. -/
-inductive Woven (ds : List (List Char)) : List Char → List Char → Prop
+inductive Woven {α : Type} (ds : List (List α)) : List α → List α → Prop
   | nil : Woven ds [] []
-  | keep (c : Char) {a b : List Char} : Woven ds a b → Woven ds (c :: a) (c :: b)
-  | ins (d : List Char) {a b : List Char} : d ∈ ds → Woven ds a b → Woven ds a (d ++ b)
+  | keep (c : α) {a b : List α} : Woven ds a b → Woven ds (c :: a) (c :: b)
+  | ins (d : List α) {a b : List α} : d ∈ ds → Woven ds a b → Woven ds a (d ++ b)
 
-theorem Woven.refl (ds : List (List Char)) : ∀ a, Woven ds a a
+theorem Woven.refl {α : Type} (ds : List (List α)) : ∀ a, Woven ds a a
   | [] => .nil
   | c :: a => .keep c (Woven.refl ds a)
 
-theorem Woven.append {ds : List (List Char)} {a1 b1 a2 b2 : List Char} (h1 : Woven ds a1 b1)
+theorem Woven.append {α : Type} {ds : List (List α)} {a1 b1 a2 b2 : List α} (h1 : Woven ds a1 b1)
     (h2 : Woven ds a2 b2) : Woven ds (a1 ++ a2) (b1 ++ b2) := by
   induction h1 with
   | nil => simpa using h2
@@ -1894,7 +1894,7 @@ def NoPunctBreak (input : List Char) : Prop :=
 
 /-- **One step of `break_string` keeps the words**, when the text offers no punctuation to break after:
 the words of the line followed by the words of what is left are the words of the input. -/
-theorem Step.words {input : List Char} (hnp : NoPunctBreak input) {line : List Char} {len : Nat}
+theorem Step.wordsLine {input : List Char} (hnp : NoPunctBreak input) {line : List Char} {len : Nat}
     (h : Step true input (.lineEnd line len)) : RF.StringFmt.words line ++ RF.StringFmt.words (input.drop len) = RF.StringFmt.words input := by
   cases h with
   | lineTrim m _ _ hmn h1 hn hblank _ hcut =>
@@ -1944,6 +1944,374 @@ theorem noPunctBreak_of_B {input : List Char} (h : noPunctBreakB input = true) :
   have := List.all_eq_true.mp h p (List.mem_range.mpr hp)
   simp only [hv, Bool.not_true, Bool.false_or] at this
   simpa [List.getD, hc] using this
+
+
+/-! ## the words of a wrapped comment (loop level) -/
+
+theorem words_append_all_ws : ∀ (ws a : List Char), ws.all isWs = true → words (a ++ ws) = words a
+  | [], a, _ => by simp
+  | w :: r, a, h => by
+    simp only [List.all_cons, Bool.and_eq_true] at h
+    have : a ++ w :: r = (a ++ [w]) ++ r := by simp
+    rw [this, words_append_all_ws r (a ++ [w]) h.2, words_snoc_ws _ _ h.1]
+
+theorem words_all_ws {ws : List Char} (h : ws.all isWs = true) : words ws = [] := by
+  have := words_append_all_ws ws [] h
+  simpa [words, wordsGo] using this
+
+/-- the buffer (reversed) is empty or ends in white space: what is pushed next starts a new word -/
+def EndsWs (acc : List Char) : Prop := acc = [] ∨ ∃ w r, acc = w :: r ∧ isWs w = true
+
+theorem words_push {acc : List Char} (h : EndsWs acc) (x : List Char) :
+    words (pushStr acc x).reverse = words acc.reverse ++ words x := by
+  unfold pushStr
+  rcases h with rfl | ⟨w, r, rfl, hw⟩
+  · simp [words, wordsGo]
+  · simp only [List.reverse_append, List.reverse_reverse, List.reverse_cons, List.append_assoc, List.singleton_append]
+    rw [words_append_ws _ _ _ hw, words_snoc_ws _ _ hw]
+
+/-- a nonempty run of white space between two texts separates their words -/
+theorem words_sep (a ws b : List Char) (hws : ws.all isWs = true) (hne : ws ≠ []) :
+    words (a ++ ws ++ b) = words a ++ words b := by
+  cases ws with
+  | nil => exact absurd rfl hne
+  | cons w r =>
+    simp only [List.all_cons, Bool.and_eq_true] at hws
+    rw [List.append_assoc, List.cons_append, words_append_ws _ _ _ hws.1, words_ws_prefix _ _ hws.2]
+
+theorem mem_takeWhile_p {p : Char → Bool} : ∀ {l : List Char} {c : Char}, c ∈ l.takeWhile p → p c = true
+  | [], _, h => by simp at h
+  | d :: r, c, h => by
+    simp only [List.takeWhile] at h
+    cases hd : p d with
+    | false => simp [hd] at h
+    | true =>
+      simp only [hd] at h
+      rcases List.mem_cons.mp h with rfl | h'
+      · exact hd
+      · exact mem_takeWhile_p h'
+
+theorem dropWhile_head {p : Char → Bool} : ∀ {l : List Char} {d : Char} {r : List Char},
+    l.dropWhile p = d :: r → p d = false
+  | [], _, _, h => by simp at h
+  | e :: t, d, r, h => by
+    simp only [List.dropWhile] at h
+    cases he : p e with
+    | false =>
+      simp only [he] at h
+      cases h
+      exact he
+    | true =>
+      simp only [he] at h
+      exact dropWhile_head h
+
+theorem words_dropWhile_rev {q : Char → Bool} (hq : ∀ c, q c = true → isWs c = true) (acc : List Char) :
+    words (acc.dropWhile q).reverse = words acc.reverse := by
+  have h : acc = acc.takeWhile q ++ acc.dropWhile q := (List.takeWhile_append_dropWhile).symm
+  conv => rhs; rw [h]
+  rw [List.reverse_append, words_append_all_ws]
+  rw [List.all_eq_true]
+  intro c hc
+  exact hq c (mem_takeWhile_p (List.mem_reverse.mp hc))
+
+theorem words_trimEndButLf_rev (te : Bool) (acc : List Char) :
+    words (trimEndButLf te acc).reverse = words acc.reverse := by
+  unfold trimEndButLf
+  split
+  · exact words_dropWhile_rev (by intro c hc; simp at hc; exact hc.1) acc
+  · rfl
+
+theorem words_trimEndWs (l : List Char) : words (trimEndWs l) = words l := by
+  unfold trimEndWs
+  rw [words_dropWhile_rev (fun _ h => h), List.reverse_reverse]
+
+/-- The format of a comment as far as the words are concerned: trimmed lines, no line end, blank
+indentation, a line start that is empty or ends in white space. -/
+structure CommentLike (k : LoopCfg) : Prop where
+  trim : k.trimEnd = true
+  lineEnd : k.lineEnd = []
+  blank : BlankIndent k
+  nlNe : k.indentNl ≠ []
+  bare : k.bareOk = k.lineStart.all isWs
+  lineStart : k.lineStart = [] ∨ ∃ l w, k.lineStart = l ++ [w] ∧ isWs w = true
+
+theorem endsWs_push_lineStart {k : LoopCfg} (hk : CommentLike k) {acc ind : List Char}
+    (hind : ind.all isWs = true) (hacc : EndsWs acc ∨ ind ≠ []) :
+    EndsWs (pushStr (pushStr acc ind) k.lineStart) := by
+  unfold pushStr
+  rcases hk.lineStart with h | ⟨l, w, h, hw⟩
+  · rw [h]
+    simp only [List.reverse_nil, List.nil_append]
+    cases hi : ind.reverse with
+    | nil =>
+      have : ind = [] := by simpa using hi
+      rcases hacc with h' | h'
+      · simpa using h'
+      · exact absurd this h'
+    | cons c r =>
+      right
+      refine ⟨c, r ++ acc, by simp, ?_⟩
+      have : c ∈ ind := List.mem_reverse.mp (by rw [hi]; simp)
+      exact List.all_eq_true.mp hind c this
+  · right
+    rw [h]
+    exact ⟨w, l.reverse ++ (ind.reverse ++ acc), by simp, hw⟩
+
+/-- no punctuation at all (a backslash apart): then every boundary `break_string` can use is white space,
+in the text and in everything that is left of it later -/
+def noPunct (l : List Char) : Bool := l.all (fun c => !isPunct c || c == '\\')
+
+theorem noPunctBreak_of_noPunct {l : List Char} (h : noPunct l = true) : NoPunctBreak l := by
+  intro p c hc hv
+  have hg : l.getD p ' ' = c := by simp [List.getD, hc]
+  simp only [isValidLinebreak, hg] at hv
+  have hmem : c ∈ l := List.mem_of_getElem? hc
+  have hnp := List.all_eq_true.mp h c hmem
+  cases hw : isWs c with
+  | true => rfl
+  | false =>
+    exfalso
+    simp only [hw, Bool.false_or, Bool.and_eq_true] at hv
+    obtain ⟨⟨hp, hb⟩, _⟩ := hv
+    simp only [hp, Bool.not_true, Bool.false_or, beq_iff_eq] at hnp
+    subst hnp
+    simp at hb
+
+theorem noPunct_drop {l : List Char} (n : Nat) (h : noPunct l = true) : noPunct (l.drop n) = true := by
+  unfold noPunct at h ⊢
+  rw [List.all_eq_true] at h ⊢
+  exact fun c hc => h c (List.mem_of_mem_drop hc)
+
+theorem pushFit_seg (k : LoopCfg) : ∀ (seg r acc : List Char), (∀ c ∈ seg, isNl c = false) →
+    pushFit k (seg ++ r) acc = pushFit k r (seg.reverse ++ acc)
+  | [], r, acc, _ => by simp
+  | c :: seg, r, acc, h => by
+    have hc : isNl c = false := h c (by simp)
+    rw [List.cons_append, pushFit, if_neg (by simp [hc])]
+    rw [pushFit_seg k seg r (c :: acc) (fun d hd => h d (by simp [hd]))]
+    simp
+
+theorem span_nl (l : List Char) : ∃ seg rest, l = seg ++ rest ∧ (∀ c ∈ seg, isNl c = false) ∧
+    (rest = [] ∨ ∃ r, rest = '\n' :: r) := by
+  refine ⟨l.takeWhile (fun c => !isNl c), l.dropWhile (fun c => !isNl c), (List.takeWhile_append_dropWhile).symm, ?_, ?_⟩
+  · intro c hc
+    have := mem_takeWhile_p hc
+    simpa using this
+  · cases hd : l.dropWhile (fun c => !isNl c) with
+    | nil => exact Or.inl rfl
+    | cons d r =>
+      right
+      have := dropWhile_head hd
+      have hdn : d = '\n' := by simpa [isNl] using this
+      exact ⟨r, by rw [hdn]⟩
+
+theorem endsWs_cons_ws {w : Char} (hw : isWs w = true) (acc : List Char) : EndsWs (w :: acc) :=
+  Or.inr ⟨w, acc, rfl, hw⟩
+
+theorem endsWs_push_ws {acc ws : List Char} (hacc : EndsWs acc) (hws : ws.all isWs = true) :
+    EndsWs (pushStr acc ws) := by
+  unfold pushStr
+  cases hi : ws.reverse with
+  | nil => simpa using hacc
+  | cons c t =>
+    right
+    refine ⟨c, t ++ acc, by simp, ?_⟩
+    have : c ∈ ws := List.mem_reverse.mp (by rw [hi]; simp)
+    exact List.all_eq_true.mp hws c this
+
+/-- "All the input fits": the words of what is pushed are the words of the input, with the words of the
+line start after every line feed that gets one. -/
+theorem pushFit_words (k : LoopCfg) (hk : CommentLike k) : ∀ (n : Nat) (rem acc : List Char), rem.length ≤ n →
+    EndsWs acc → ∃ X, words (pushFit k rem acc).reverse = words acc.reverse ++ X ∧ Woven [words k.lineStart] (words rem) X
+  | 0, rem, acc, hn, hacc => by
+    have : rem = [] := List.length_eq_zero_iff.mp (by omega)
+    subst this
+    exact ⟨[], by simp [pushFit], by simpa [words, wordsGo] using (Woven.nil : Woven [words k.lineStart] [] [])⟩
+  | n + 1, rem, acc, hn, hacc => by
+    obtain ⟨seg, rest, hrem, hseg, hrest⟩ := span_nl rem
+    rcases hrest with hrest | ⟨r, hrest⟩
+    · subst hrest
+      simp only [List.append_nil] at hrem
+      subst hrem
+      have := pushFit_seg k rem [] acc hseg
+      simp only [List.append_nil, pushFit] at this
+      refine ⟨words rem, ?_, Woven.refl _ _⟩
+      rw [this]
+      exact words_push hacc rem
+    · subst hrest
+      subst hrem
+      rw [pushFit_seg k seg ('\n' :: r) acc hseg, pushFit, if_pos (by decide)]
+      -- the buffer after the line feed (and the decoration, if any)
+      have hnlws : isWs '\n' = true := by decide
+      have hbase : words ('\n' :: trimEndButLf k.trimEnd (seg.reverse ++ acc)).reverse = words acc.reverse ++ words seg := by
+        rw [List.reverse_cons, words_snoc_ws _ _ hnlws, words_trimEndButLf_rev]
+        exact words_push hacc seg
+      have hlen : r.length ≤ n := by simp at hn; omega
+      have hwords : words (seg ++ '\n' :: r) = words seg ++ words r := words_append_ws _ _ _ hnlws
+      simp only
+      split
+      · -- decorated
+        have hE1 : EndsWs ('\n' :: trimEndButLf k.trimEnd (seg.reverse ++ acc)) := endsWs_cons_ws hnlws _
+        have hE2 := endsWs_push_ws hE1 hk.blank.noNl
+        have hends : EndsWs (pushStr (pushStr ('\n' :: trimEndButLf k.trimEnd (seg.reverse ++ acc)) k.indentNoNl) k.lineStart) :=
+          endsWs_push_lineStart hk hk.blank.noNl (Or.inl hE1)
+        obtain ⟨X, hX, hW⟩ := pushFit_words k hk n r _ hlen hends
+        refine ⟨words seg ++ (words k.lineStart ++ X), ?_, ?_⟩
+        · rw [hX, words_push hE2 k.lineStart, words_push hE1 k.indentNoNl, words_all_ws hk.blank.noNl, hbase]
+          simp
+        · rw [hwords]
+          exact Woven.append (Woven.refl _ _) (Woven.ins _ (by simp) hW)
+      · obtain ⟨X, hX, hW⟩ := pushFit_words k hk n r _ hlen (endsWs_cons_ws hnlws _)
+        refine ⟨words seg ++ X, ?_, ?_⟩
+        · rw [hX, hbase]; simp
+        · rw [hwords]
+          exact Woven.append (Woven.refl _ _) hW
+
+
+/-- the words of the line a step returns, followed by the words of the rest, are the words of the input -/
+theorem Step.words_all {input : List Char} (hnp : NoPunctBreak input) {s : Snippet} (h : Step true input s) :
+    match s with
+    | .endOfInput l => RF.StringFmt.words l = RF.StringFmt.words input
+    | .lineEnd l n => RF.StringFmt.words l ++ RF.StringFmt.words (input.drop n) = RF.StringFmt.words input
+    | .endWithLineFeed l n => RF.StringFmt.words l ++ RF.StringFmt.words (input.drop n) = RF.StringFmt.words input := by
+  cases h with
+  | eoi => rfl
+  | eoiTrim m _ hb =>
+    simp only
+    conv => rhs; rw [← List.take_append_drop m input]
+    rw [words_append_all_ws _ _ (all_isWs_of_all_blank hb)]
+  | feedTrim i _ hnl _ =>
+    simp only
+    have hnlws : isWs '\n' = true := by decide
+    rw [words_snoc_ws _ _ hnlws, words_trimEndWs]
+    conv => rhs; rw [← List.take_append_drop i input]
+    rw [drop_eq_cons_of_getElem? hnl, words_append_ws _ _ _ hnlws]
+  | feed _ hte _ _ => cases hte
+  | lineTrim m n hte hmn h1 hn hblank hnonl hcut =>
+    exact Step.wordsLine hnp (Step.lineTrim m n hte hmn h1 hn hblank hnonl hcut)
+  | line _ hte _ _ _ _ => cases hte
+
+def wordsOk (input : List Char) : Snippet → Prop
+  | .endOfInput l => words l = words input
+  | .lineEnd l n => words l ++ words (input.drop n) = words input
+  | .endWithLineFeed l n => words l ++ words (input.drop n) = words input
+
+theorem Step.words_ok {input : List Char} (hnp : NoPunctBreak input) {s : Snippet} (h : Step true input s) :
+    wordsOk input s := by
+  have := h.words_all hnp
+  cases s <;> simpa [RF.Lemmas.StringFmt.wordsOk] using this
+
+/-- The loop of `rewrite_string` in a comment format, on a text without punctuation: the words it appends
+to the buffer are the words of what was left of the input, with the words of the line start woven in. -/
+theorem loop_words (k : LoopCfg) (hk : CommentLike k) : ∀ (fuel : Nat) (rem acc : List Char) (curMax : Nat)
+    (acc' : List Char), noPunct rem = true → EndsWs acc → loop k fuel rem acc curMax = some acc' →
+    ∃ X, words acc'.reverse = words acc.reverse ++ X ∧ Woven [words k.lineStart] (words rem) X
+  | 0, _, _, _, _, _, _, h => by simp [loop] at h
+  | fuel + 1, rem, acc, curMax, acc', hnp, hacc, h => by
+    unfold loop at h
+    split at h
+    · cases h
+      obtain ⟨X, hX, hW⟩ := pushFit_words k hk rem.length rem acc (Nat.le_refl _) hacc
+      exact ⟨X, by rw [words_trimEndButLf_rev, hX], hW⟩
+    · have hs := breakString_step curMax k.trimEnd k.lineEnd rem
+      rw [hk.trim] at hs
+      have hw := hs.words_ok (noPunctBreak_of_noPunct hnp)
+      split at h
+      · rename_i line len heq
+        rw [hk.trim] at heq
+        rw [heq] at hw
+        simp only [wordsOk] at hw
+        rw [hk.lineEnd] at h
+        have hA : words (pushStr (pushStr acc line) []).reverse = words acc.reverse ++ words line := by
+          have : pushStr (pushStr acc line) [] = pushStr acc line := by simp [pushStr]
+          rw [this]; exact words_push hacc line
+        have hC : words (pushStr (pushStr (pushStr acc line) []) k.indentNl).reverse = words acc.reverse ++ words line := by
+          rw [← hA]
+          simp only [pushStr, List.reverse_append, List.reverse_reverse, List.reverse_nil, List.nil_append, List.append_nil]
+          have := words_append_all_ws k.indentNl (acc.reverse ++ line) hk.blank.nl
+          simpa [List.append_assoc] using this
+        have hEC : EndsWs (pushStr (pushStr (pushStr acc line) []) k.indentNl) := by
+          unfold pushStr
+          cases hi : k.indentNl.reverse with
+          | nil => exact absurd (by simpa using hi) hk.nlNe
+          | cons c t =>
+            right
+            refine ⟨c, _, rfl, ?_⟩
+            have : c ∈ k.indentNl := List.mem_reverse.mp (by rw [hi]; simp)
+            exact List.all_eq_true.mp hk.blank.nl c this
+        have hED := endsWs_push_lineStart (acc := pushStr (pushStr acc line) []) hk hk.blank.nl (Or.inr hk.nlNe)
+        obtain ⟨X, hX, hW⟩ := loop_words k hk fuel _ _ _ _ (noPunct_drop len hnp) hED h
+        refine ⟨words line ++ (words k.lineStart ++ X), ?_, ?_⟩
+        · rw [hX, words_push hEC k.lineStart, hC]; simp
+        · rw [← hw]
+          exact Woven.append (Woven.refl _ _) (Woven.ins _ (by simp) hW)
+      · rename_i line len heq
+        rw [hk.trim] at heq
+        rw [heq] at hw hs
+        simp only [wordsOk] at hw
+        have hnlws : isWs '\n' = true := by decide
+        -- the line ends in a line feed
+        have hlast : ∃ l0, line = l0 ++ ['\n'] := by
+          cases hs with
+          | feedTrim i _ _ _ => exact ⟨_, rfl⟩
+          | feed _ hte _ _ => cases hte
+        obtain ⟨l0, hl0⟩ := hlast
+        have hF : words (feedAcc k acc line).reverse = words acc.reverse ++ words line := by
+          unfold feedAcc
+          split
+          · rename_i hc
+            simp only [Bool.and_eq_true, beq_iff_eq] at hc
+            rw [hc.1]
+            simp only [pushStr, List.reverse_cons, List.reverse_nil, List.nil_append, List.singleton_append,
+              List.reverse_append, List.reverse_reverse]
+            rw [words_snoc_ws _ _ hnlws, words_dropWhile_rev (fun _ h => h)]
+            simp [words, wordsGo, hnlws]
+          · exact words_push hacc line
+        have hEF : EndsWs (feedAcc k acc line) := by
+          unfold feedAcc pushStr
+          rw [hl0]
+          simp only [List.reverse_append, List.reverse_cons, List.reverse_nil, List.nil_append, List.singleton_append,
+            List.cons_append]
+          exact endsWs_cons_ws hnlws _
+        split at h
+        · obtain ⟨X, hX, hW⟩ := loop_words k hk fuel _ _ _ _ (noPunct_drop len hnp) hEF h
+          refine ⟨words line ++ X, ?_, ?_⟩
+          · rw [hX, hF]; simp
+          · rw [← hw]
+            exact Woven.append (Woven.refl _ _) hW
+        · have hEG := endsWs_push_ws hEF hk.blank.noNl
+          have hEH := endsWs_push_lineStart (acc := feedAcc k acc line) hk hk.blank.noNl (Or.inl hEF)
+          obtain ⟨X, hX, hW⟩ := loop_words k hk fuel _ _ _ _ (noPunct_drop len hnp) hEH h
+          refine ⟨words line ++ (words k.lineStart ++ X), ?_, ?_⟩
+          · rw [hX, words_push hEG k.lineStart, words_push hEF k.indentNoNl, words_all_ws hk.blank.noNl, hF]; simp
+          · rw [← hw]
+            exact Woven.append (Woven.refl _ _) (Woven.ins _ (by simp) hW)
+      · rename_i line heq
+        rw [hk.trim] at heq
+        rw [heq] at hw
+        simp only [wordsOk] at hw
+        cases h
+        exact ⟨words line, words_push hacc line, by rw [← hw]; exact Woven.refl _ _⟩
+
+/-- `rewrite_string` before `wrap_str`, comment format without opener and closer, text without punctuation:
+the words of the result are the words of the stripped input with the words of the line start woven in. -/
+theorem rewriteRaw_words (k : LoopCfg) (hk : CommentLike k) (orig r : List Char)
+    (hnp : noPunct (stripLineBreaks orig) = true) (h : rewriteRaw k [] [] orig = some r) :
+    Woven [words k.lineStart] (words (stripLineBreaks orig)) (words r) := by
+  unfold rewriteRaw at h
+  simp only [List.reverse_nil] at h
+  cases hl : loop k ((stripLineBreaks orig).length + 1) (stripLineBreaks orig) [] k.mwWith with
+  | none => simp [hl] at h
+  | some acc' =>
+    simp only [hl, Option.some.injEq] at h
+    obtain ⟨X, hX, hW⟩ := loop_words k hk _ _ _ _ _ hnp (Or.inl rfl) hl
+    have : words r = X := by
+      rw [← h]
+      simp only [pushStr, List.reverse_nil, List.nil_append]
+      rw [hX]
+      simp [words, wordsGo]
+    rw [this]
+    exact hW
 
 /-! ## from a `StringFormat` to the constants of the loop -/
 
